@@ -4,12 +4,7 @@ SPECIFICATION Spec
 INVARIANT TypeOK
 INVARIANT BlanksAtEnds
 INVARIANT FlagsRight
-INVARIANT WellFormed
-INVARIANT ExactIsFirstEqual
-INVARIANT ApproxIsBest
-INVARIANT ApproxFindsExact
-INVARIANT BinarySearchOK
-INVARIANT Sandwich
+INVARIANT MatchLaws
 INVARIANT TableLaws
 INVARIANT Export
 PROPERTY AppendLaw
